@@ -49,6 +49,7 @@ type Scenario struct {
 	Twins      bool       `json:"twins,omitempty"`       // parallel: pairs 0 and 1 sign the very same message at the same instant under the same signer name and key tag - with different keys (a rollover); each key's device takes a scheduling point inside its Sign
 	Flaky      int        `json:"flaky,omitempty"`       // the key is a device that fails its first n requests (a token that lost its session, a throttled KMS) and works from then on
 	ThirdParty int        `json:"third_party,omitempty"` // the message that travels is signed by an independent implementation (own digest construction, standard library crypto): 1 ECDSA with the smaller s, 2 with the larger s, 3 as it comes
+	EscOwner   int        `json:"esc_owner,omitempty"`   // the verifier's KEY record spells its owner with a decimal escape for one letter (\101 for e) - the same domain name, the matching key; 2: the signer spells its own name that way too
 	OwnSIG     bool       `json:"own_sig,omitempty"`     // the verifier checks the delivered octets with the SIG object that signed (the way the library's own test does): that object holds the genuine signature, whatever the octets say
 	Spare      bool       `json:"spare,omitempty"`       // the message's sections are slices with room to spare, and what lies in that room belongs to someone else (another message built on the same array)
 	SharedMsg  bool       `json:"shared_msg,omitempty"`  // parallel: all pairs also sign one and the same message object (no EDNS: packing it writes nothing), each with its own key; a private record in its answer section takes a scheduling point while it is packed
@@ -117,6 +118,9 @@ func Gen(seed uint64, tier string) any {
 	sc.Poison = core.Chance(r, 20)
 	sc.Resign = core.Chance(r, 25)
 	sc.OwnSIG = core.Chance(r, 20)
+	if core.Chance(r, 6) {
+		sc.EscOwner = 1 + r.IntN(2)
+	}
 	sc.Spare = core.Chance(r, 25)
 	sc.SharedMsg = sc.Parallel > 0 && core.Chance(r, 50)
 	if core.Chance(r, 30) {
@@ -384,6 +388,16 @@ func runIn(sc *Scenario, res *core.Result, verbose bool) {
 	sig.KeyTag = kp.key.KeyTag()
 	sig.SignerName = kp.key.Hdr.Name
 	sig.Inception, sig.Expiration = incept, expire
+	vkey := kp.key
+	if sc.EscOwner > 0 {
+		ek := dns.Copy(kp.key).(*dns.KEY)
+		ek.Hdr.Name = escapeOne(ek.Hdr.Name)
+		vkey = ek
+		if sc.EscOwner == 2 {
+			sig.SignerName = ek.Hdr.Name
+		}
+		res.Bump("cover.key_owner_spelled_with_an_escape")
+	}
 	if sc.Leftovers {
 		// Sign asks for algorithm, key tag, signer name and the window; the rest is its own business
 		sig.Hdr = dns.RR_Header{Name: "left.over.example.", Rrtype: dns.TypeRRSIG, Class: dns.ClassINET, Ttl: 3600, Rdlength: 77}
@@ -588,7 +602,7 @@ func runIn(sc *Scenario, res *core.Result, verbose bool) {
 			tclass = "at-expiration"
 		}
 		buf := append([]byte(nil), signed...)
-		key := kp.key
+		key := vkey
 		tampered, covered := false, true
 		desc := d.Fault
 		if d.Fault == "sweep" {
@@ -817,6 +831,9 @@ func runIn(sc *Scenario, res *core.Result, verbose bool) {
 				if sc.Siege > 0 {
 					sigName = "verify-failed-after-forgeries"
 				}
+				if sc.EscOwner > 0 {
+					sigName = "verify-failed-key-owner-spelled-with-escape"
+				}
 				res.Fail("Q2", sigName, "an untampered %s-signed message (%d octets, ARCOUNT %d) inside its validity window does not verify: %v", algName, len(buf), lay.H.AR, verr)
 				return
 			}
@@ -1026,6 +1043,19 @@ func runParallel(sc *Scenario, res *core.Result, verbose bool) {
 	}
 	res.Nontrivial = true
 	res.Class = "parallel/n=" + strconv.Itoa(sc.Parallel) + "/" + dns.AlgorithmToString[keys[sc.Key%len(keys)].key.Algorithm]
+}
+
+// escapeOne spells the first letter of a domain name as a decimal escape: another spelling of the same name.
+func escapeOne(name string) string {
+	for i := 0; i < len(name); i++ {
+		if c := name[i]; c >= 'a' && c <= 'z' || c >= 'A' && c <= 'Z' {
+			if i > 0 && name[i-1] == '\\' {
+				continue
+			}
+			return name[:i] + fmt.Sprintf("\\%03d", c) + name[i+1:]
+		}
+	}
+	return name
 }
 
 // yieldRdata is the RDATA of a private record type whose packing takes a scheduling point: an application's
